@@ -84,14 +84,16 @@ Definition restrict (es : optab) (reg : list path) : optab := filter (fun e => p
 Definition given (abbrev : bool) (es : optab) (argv : list tok) (p : path) : list string :=
   map snd (filter (fun t => match classify abbrev es (fst t) with Some q => path_eqb q p | None => false end) argv).
 
-(* choices=keys, required / default: every occurrence is validated, the last one wins *)
-Definition pick (dflt : option string) (ks : list string) (g : list string) : res string :=
-  if forallb (fun k => str_in k ks) g then
+(* required / default; with choices=keys (`validates`: FieldWrapper.get_arg_options puts the table's keys into the
+   argument options) every occurrence is validated; the last one wins *)
+Definition pick_v (validates : bool) (dflt : option string) (ks : list string) (g : list string) : res string :=
+  if negb validates || forallb (fun k => str_in k ks) g then
     match last_opt g with
     | Some k => Ok k
     | None => match dflt with Some k => Ok k | None => Err (Exit 2) end
     end
   else Err (Exit 2).
+Definition pick := pick_v true.
 
 (* what is known about the subgroup destinations of a (partially resolved) tree, in traversal order *)
 Record sginfo := mkinfo { i_path : path; i_dflt : option string; i_keys : list string; i_key : option string }.
@@ -152,6 +154,12 @@ Section Facts.
                                       is looked at before `subgroup_default` *)
   Variable loop_breaks : bool.     (* the itertools.count() loop stops as soon as no subgroup is unresolved *)
   Variable report_ns : bool.       (* namespace.subgroups[dest] is read back from the parsed namespace *)
+  Variable validates : bool.       (* FieldWrapper.get_arg_options: a choice field's options carry choices=<keys> *)
+  Variable main_has_sg : bool.     (* DataclassWrapper.add_arguments adds the (already resolved) subgroup fields to the
+                                      main parser as well *)
+  Variable sees_argv : bool.       (* parse_known_args -> _preprocessing -> _resolve_subgroups are handed the command line *)
+  Variable bottom_up : bool.       (* _instantiate_dataclasses builds the deepest wrappers first and stores each value
+                                      in its parent's constructor arguments *)
 
   (* the subgroup fields directly inside an entry that was a frozen instance get the instance's attribute
      (a dataclass, not a key) as FieldWrapper._default *)
@@ -178,7 +186,7 @@ Section Facts.
     match s with
     | SNil => Ok SNil
     | SUn f dflt t r =>
-        match pick dflt (keys t) (given sub_abbrev es argv (snoc p f)) with
+        match pick_v validates dflt (keys t) (given sub_abbrev es argv (snoc p f)) with
         | Err e => Err e
         | Ok k =>
             match find_alt k t with
@@ -214,8 +222,9 @@ Section Facts.
              end
     end.
   (* _resolve_subgroups *)
+  Definition seen_argv (argv : list tok) : list tok := if sees_argv then argv else [].
   Definition resolve (fuel : nat) (tb : optab) (argv : list tok) (root : path) (d : dc) : res dc :=
-    if negb (unres_dc d) then Ok d else loop fuel tb argv root d.
+    if negb (unres_dc d) then Ok d else loop fuel tb (seen_argv argv) root d.
 
   (* ---------- the main parser, _remove_subgroups_from_namespace, construction ---------- *)
   Definition eff_leaves (src : source) (l : list (string * Z)) : list (string * Z) :=
@@ -265,12 +274,17 @@ Section Facts.
                        end) info.
 
   Definition registered (root : path) (r : dc) : list path :=
-    (map i_path (sg_info_dc root r) ++ leaf_paths_dc root r)%list.
+    ((if main_has_sg then map i_path (sg_info_dc root r) else []) ++ leaf_paths_dc root r)%list.
+
+  (* a parent built before its children finds no value for them (and the child, later, no parent to store into) *)
+  Definition has_sub (d : dc) : bool := match d with Dc _ _ SNil => false | _ => true end.
 
   Definition final (tb : optab) (argv : list tok) (root : path) (r : dc) : res (val * list (path * string)) :=
     let info := sg_info_dc root r in
     let es := restrict tb (registered root r) in
-    if forallb (tok_ok es info) argv then Ok (value_dc es argv root SType r, report es argv info)
+    if forallb (tok_ok es info) argv then
+      if bottom_up || negb (has_sub r) then Ok (value_dc es argv root SType r, report es argv info)
+      else Err (Raise "KeyError")
     else Err (Exit 2).
 
   Definition parse (fuel : nat) (tb : optab) (argv : list tok) (root : path) (d : dc)
